@@ -38,6 +38,8 @@ func main() {
 		runC17(*seed, *count)
 	case "C11":
 		runC11(*seed, *count)
+	case "C18":
+		runC18rf(*seed, *count)
 	case "C13":
 		runC13tcp(*seed, *count)
 	case "C15":
